@@ -469,7 +469,7 @@ def body_inversion(case, ctx):
             ctx.close(f_got, f_got.T, "inversion/curvature_symmetry", atol=1e-12 * (sf + FLOOR), what="curvature_matrix symmetry")
     # (2) end to end against the independent operator
     if transform_ok:
-        d2, f2, sd, sf = dft.normal_equations(t_ref, vis, noise, noreg=noreg, eps=EPS)
+        d2, f2, sd, sf = dft.normal_equations(t_ref, vis, noise, noreg=noreg, eps=EPS, t_abs=np.abs(a) @ np.abs(mm))
         ctx.close(d_got, d2, "inversion/data_vector/end-to-end", atol=1e-8 * (sd + FLOOR), what="data_vector vs Gram products of A M")
         ctx.close(f_got, f2, "inversion/curvature_matrix/end-to-end", atol=1e-8 * (sf + FLOOR), what="curvature_matrix vs Gram products of A M")
     else:
@@ -989,7 +989,7 @@ def body_state(case, ctx):
         s_cur = np.array(n_obj, dtype=complex).copy()
         t_got = np.asarray(inv.operated_mapping_matrix)
         ctx.close(t_got, t_ref, "vis-state/inversion/operated_mapping_matrix", atol=tol_t, what="operated_mapping_matrix vs A M")
-        d1, f1, sd, sf = dft.normal_equations(t_ref, v_cur, s_cur, noreg=noreg, eps=EPS)
+        d1, f1, sd, sf = dft.normal_equations(t_ref, v_cur, s_cur, noreg=noreg, eps=EPS, t_abs=np.abs(a) @ np.abs(mm))
         ctx.close(np.array(inv.data_vector, dtype=float), d1, "vis-state/inversion/%s/data_vector" % tag, atol=1e-8 * (sd + FLOOR),
                   what="data_vector vs Gram products with the values the data / noise objects hold now (%s, %s)" % (route, tag))
         ctx.close(np.array(inv.curvature_matrix, dtype=float), f1, "vis-state/inversion/%s/curvature_matrix" % tag,
